@@ -45,6 +45,7 @@ func runC19(c *Ctx) {
 	}
 	ruleGuardedMaps(c, "R19.5", routing)
 	ruleRoutingRemovedForRegisteredProcess(c, "R19.6")
+	ruleProcessMessagesNameTheirChain(c, "R19.7")
 }
 
 func isProtoReqParam(p *ssa.Parameter) bool {
